@@ -219,6 +219,18 @@ namespace options
             return true;
         }
 
+        if (has_short_name() && arg.is_short())
+        {
+            auto list = arg.as_short_list();
+
+            if (list.size() > 1 && arg.has_value())
+            {
+                return false;
+            }
+
+            return list.count(short_name());
+        }
+
         return base::matches(arg);
     }
 } // namespace options
